@@ -311,17 +311,17 @@ Proof.
       destruct (tab_entries_agree w _ _ _ _ _ AF C0 ltac:(lia)) as (TE1 & TC1).
       pose proof (update_table_spec w delta off g1 T g2 Hw) as SP. cbv zeta in SP. fold (nlo T) in SP.
       rewrite (nlo_mv T M) in SP. rewrite <- TC1 in SP.
-      destruct (SP ltac:(lia) C0 CL ltac:(lia) S) as (-> & _ & TE2 & TC2).
       (* the 16 leading bytes are not written *)
-      assert (A12 : agree g1 (mv (ma_off T)) (patch g1 (mv (ma_off T) + 16) (mp4_pack w (map (mp4_shift off delta) (tab_entries w g1 (mv (ma_off T)))))) (mv (ma_off T)) 16).
+      assert (A12 : agree g1 (mv (ma_off T)) g2 (mv (ma_off T)) 16).
       { apply (agree_frame (mv (ma_off T) + 16) (mv (ma_off T) + ma_len T)); try lia.
-        unfold nlo in *. pose proof (Hframe g1 T _ (proj1 (Forall_forall _ _) Hpre T HT) S) as FR.
-        unfold nlo in FR. rewrite (placed_moved T) in FR by (destruct M as (_ & P & _); tauto || lia). exact FR. }
+        rewrite <- (nlo_mv T M). unfold nlo. apply update_table_frame with (w := w); [|nia|exact S].
+        fold (nlo T). rewrite (nlo_mv T M). lia. }
+      destruct (SP ltac:(lia) C0 CL ltac:(lia) S) as (_ & _ & TE2 & TC2).
       split.
-      * eapply agree_trans; [apply (agree_sub _ _ _ _ _ 0 16 AF); lia|]. rewrite !Z.add_0_r.
-        eapply agree_trans; [exact A12|]. pose proof (agree_sub _ _ _ _ _ 0 16 A2) as X. rewrite !Z.add_0_r in X. apply X; lia.
+      * eapply agree_trans; [apply (agree_prefix _ _ _ _ _ 16 AF); lia|].
+        eapply agree_trans; [exact A12|]. apply (agree_prefix _ _ _ _ _ 16 A2); lia.
       * destruct (tab_entries_agree w _ _ _ _ _ A2) as (TE3 & _).
-        { rewrite TC2, <- TC1. exact C0. } { rewrite TC2, <- TC1. lia. }
+        { rewrite TC2. exact C0. } { rewrite TC2. lia. }
         rewrite <- TE3, TE2, <- TE1. reflexivity.
 Qed.
 
@@ -375,11 +375,11 @@ Proof.
       destruct (SP ltac:(lia) C12 C24 ltac:(lia) S) as (FL2 & SF & ST).
       assert (A12 : agree g1 (mv (ma_off T)) g2 (mv (ma_off T)) 16).
       { apply (agree_frame (mv (ma_off T) + 16) (mv (ma_off T) + ma_len T)); try lia.
-        pose proof (Hframe g1 T _ (proj1 (Forall_forall _ _) Hpre T HT) S) as FR.
-        rewrite (nlo_mv T M) in FR. exact FR. }
+        rewrite <- (nlo_mv T M). unfold nlo. apply update_tfhd_frame; [|lia|exact S].
+        fold (nlo T). rewrite (nlo_mv T M). lia. }
       split; [|split].
-      * eapply agree_trans; [apply (agree_sub _ _ _ _ _ 0 16 AF); lia|]. rewrite !Z.add_0_r.
-        eapply agree_trans; [exact A12|]. pose proof (agree_sub _ _ _ _ _ 0 16 A2) as X. rewrite !Z.add_0_r in X. apply X; lia.
+      * eapply agree_trans; [apply (agree_prefix _ _ _ _ _ 16 AF); lia|].
+        eapply agree_trans; [exact A12|]. apply (agree_prefix _ _ _ _ _ 16 A2); lia.
       * intros E0. rewrite (SF E0) in *. eapply agree_trans; [exact AF|exact A2].
       * intros E1. specialize (C24 E1). destruct (ST E1) as (_ & -> & TB).
         destruct (tfhd_agree _ _ _ _ _ AF C24) as (_ & BF).
